@@ -232,7 +232,7 @@ def evaluate(md, name, w, idx, fseed):
     elif name == 'acylindricity':
         out = md.acylindricity(t)
     elif name == 'shape_anisotropy':
-        out = md.relative_shape_anisotropy(t)
+        out = md.relative_shape_antisotropy(t)
     elif name == 'nematic_order':
         out = md.compute_nematic_order(t, indices='residues')
     elif name == 'directors':
